@@ -1000,6 +1000,10 @@ class GenLO(Sim):
         good = rng.random() < 0.65 if good is None else good
         if good:
             return rng.choice(['%d' % rng.randrange(0, 50000), '%.3f' % rng.uniform(0, 50000), '1.5', '0.1', '2.675',
+                               # Hz-exact decimals whose binary64 product with 1e6 lies just below the integer
+                               # (int() and round() differ there: seeded change C05-r5m1)
+                               '%.6f' % rng.uniform(0, 50000), '%.6f' % rng.uniform(0, 500), '%.5f' % rng.uniform(0, 50000),
+                               '128.003', '128.004', '128.010', '1.001',
                                '1e3', '-0.0', '.5', '5.', '1_0.2_5', '1e-7', '4.35', '0.0000005', '123456789.987654321',
                                '1.0000005', '9007199254.740993', '-3.2', '+7e2', '1e300'])
         return rng.choice(['nan', 'inf', '-inf', 'infinity', 'NaN', '1e303', '1e308', '1e400', '-1e305', 'dummy',
